@@ -23,8 +23,10 @@ func (p *PIDZero) startShutdownManager() {
 						return
 					case <-triggerChan:
 						p.logger.Info("Shutdown requested by runnable", "runnable", r)
-						p.Shutdown() // Trigger supervisor shutdown
-						return       // Exit this goroutine after triggering shutdown
+						// Shutdown waits for this listener (via the manager and p.wg), so it
+						// must not run on the listener's own goroutine.
+						go p.Shutdown() // Trigger supervisor shutdown
+						return          // Exit this goroutine after triggering shutdown
 					}
 				}
 			}(r, sdSender) // Pass both variables
